@@ -302,6 +302,7 @@ structure Base (B : Type) where
   dec : B → B                -- `--base`
   addAssign : B → Int → B    -- `base += n`
   sub : B → B → Int          -- `base1 - base2`
+  lt : B → B → Bool          -- `base1 < base2`
 
 namespace NewF
 variable {B : Type} (b : Base B)
@@ -313,7 +314,15 @@ def ne (l r : B) : Bool := Gen.nf_ne.eval {} { a := eq b l r }
 def diff (l r : B) : Int := b.sub l r
 /-- what the relational bodies refer to: `it1 - it2` (and `it2 - it1`) -/
 def renv (l r : B) : Env := { a := diff b l r, b := diff b r l }
-/-- `operator<`: `(it1 - it2) < D(0)` and so on -/
+/-- `operator<`, `<=`, `>`, `>=` of a derived class WITH comparable base iterators (fix C16_facade_order_by_base):
+`base1 < base2`, `not(base2 < base1)`, `base2 < base1`, `not(base1 < base2)` -/
+def benvB (l r : B) : BEnv := { a := b.lt l r, b := b.lt r l }
+def ltB (l r : B) : Bool := Gen.nf_lt_base.eval {} (benvB b l r)
+def leB (l r : B) : Bool := Gen.nf_le_base.eval {} (benvB b l r)
+def gtB (l r : B) : Bool := Gen.nf_gt_base.eval {} (benvB b l r)
+def geB (l r : B) : Bool := Gen.nf_ge_base.eval {} (benvB b l r)
+/-- the same operators of a derived class without base iterators (it implements `it1 - it2` itself):
+`(it1 - it2) < D(0)` and so on -/
 def lt (l r : B) : Bool := Gen.nf_lt.eval (renv b l r) {}
 def le (l r : B) : Bool := Gen.nf_le.eval (renv b l r) {}
 def gt (l r : B) : Bool := Gen.nf_gt.eval (renv b l r) {}
@@ -366,6 +375,7 @@ def stdBase : Base It where
   dec a := { a with pos := a.pos - 1 }
   addAssign a n := { a with pos := a.pos + n }
   sub a b := a.pos - b.pos
+  lt a b := decide (a.pos < b.pos)
 
 /-- IntegralRangeIterator as the base of a transformed range -/
 def irBase : Base IR where
@@ -374,15 +384,17 @@ def irBase : Base IR where
   dec := IR.dec
   addAssign := IR.addAssign
   sub := IR.diff
+  lt := IR.lt
 
 /-- IntegralRangeIterator<T> of a `bits` wide `T` as the base of a transformed range, with the difference the
-machine computes (`difference_type` = the signed type of the same width): the facade derives `< <= > >=` from it -/
+machine computes (`difference_type` = the signed type of the same width) and its own `<` -/
 def irBaseW (bits : Nat) : Base IR where
   eq := IR.eqW bits
   inc := IR.inc
   dec := IR.dec
   addAssign := IR.addAssign
   sub := IR.diffW bits
+  lt := IR.ltW bits
 
 /-- DenseIterator (through the RandomAccessIteratorFacade) as the base of a sparse range / of an IndexedIterator -/
 def denseBase : Base It where
@@ -391,6 +403,7 @@ def denseBase : Base It where
   dec := Legacy.preDec posCore
   addAssign := Legacy.addAssign posCore
   sub := Legacy.diff posCore true
+  lt := Legacy.lt posCore true
 
 /-! ## IndexedIterator: the wrapped iterator plus a running index -/
 
